@@ -86,7 +86,7 @@ def baseline(case):
   it = build_stages(c, case['records'], ['P']).make().iterate()
   out = list(it)
   agg = norm_result(it.agg_result)
-  if case.get('mid_agg') and len(case.get('cuts', [])) >= 1 and case['strategy']['kind'] in ('stages', 'named', 'shards', 'interleaved'):
+  if case.get('mid_agg') and len(case.get('cuts', [])) >= 1 and case['strategy']['kind'] in ('stages', 'named', 'manual', 'shards', 'interleaved'):
     # reference value of the extra aggregate of the first stage: over the records that reach the end of that stage
     first = dict(case, prog={'ops': case['prog']['ops'][:case['cuts'][0]]}, cuts=[], num_threads=0, mid_agg=False)
     recs = list(build_stages_plain(first, case['records']).make().iterate())
@@ -136,6 +136,23 @@ def run_case(case):
       got_agg = norm_result(it.agg_result)
     except Exception as e:  # pylint: disable=broad-exception-caught
       raise crash(e, what) from e
+  elif kind == 'manual':
+    # the named stages are run one after the other by hand: each stage's runner iterates the previous stage's iterator
+    n = len(case.get('cuts', [])) + 1
+    try:
+      t = build_stages(case, records, [f'S{i}' for i in range(n)])
+      parts = list(t.named_transforms().values())
+      its = [parts[0].make().iterate()]
+      for part in parts[1:]:
+        its.append(part.make().iterate(its[-1]))
+      got_out = list(its[-1])
+      got_agg = {}
+      for it_ in its:
+        res = it_.agg_result
+        if res is not None:
+          got_agg.update({k: v for k, v in norm_result(res).items() if k != '__not_a_mapping__'})
+    except Exception as e:  # pylint: disable=broad-exception-caught
+      raise crash(e, what) from e
   elif kind == 'shards':
     k = strat_['k']
     try:
@@ -162,7 +179,7 @@ def run_case(case):
     got_out, info = [], {}
 
     def body():
-      with orchestrate.run_pipeline_interleaved(t) as runner:
+      with orchestrate.run_pipeline_interleaved(t, aggregate_only=bool(strat_.get('aggregate_only'))) as runner:
         for x in runner.result_queue:
           got_out.append(x)
       info['returned'] = list(runner.result_queue.returned)
@@ -176,6 +193,10 @@ def run_case(case):
     # the interleaved runner hands out the aggregate of its last stage only
     check({'rs', 'rn'} <= set(got_agg), 'aggregate-depends-on-strategy', f'{what}: last stage returned {got_agg}')
     want_agg = {k: v for k, v in want_agg.items() if k in got_agg}
+    if strat_.get('aggregate_only'):
+      # only the final aggregate is asked for: the last stage hands out a None placeholder per batch, never data
+      check(all(x is None for x in got_out), 'emitted-batches-depend-on-strategy', f'{what}: aggregate_only run emitted {got_out!r}')
+      got_out, want_out = [], []
   else:
     raise ValueError(kind)
   check(sorted(map(_canon, got_out)) == sorted(map(_canon, want_out)), 'emitted-batches-depend-on-strategy',
@@ -219,7 +240,7 @@ def strat_structural(tier):
   @st.composite
   def s(draw):
     case = _base_case(draw)
-    kind = draw(st.sampled_from(['stages', 'fused', 'named', 'shards', 'shards']))
+    kind = draw(st.sampled_from(['stages', 'fused', 'named', 'manual', 'shards', 'shards']))
     if kind == 'shards':
       k = draw(st.integers(1, 6))
       case['strategy'] = {'kind': kind, 'k': k, 'order': draw(st.permutations(list(range(k)))),
@@ -234,7 +255,7 @@ def strat_interleaved(tier):
   @st.composite
   def s(draw):
     case = _base_case(draw)
-    case['strategy'] = {'kind': 'interleaved'}
+    case['strategy'] = {'kind': 'interleaved', 'aggregate_only': draw(st.booleans())}
     return case
   return s()
 
